@@ -1452,8 +1452,10 @@ class Container:
         # an amount of zero comes out of the solver as noise of either sign (no solvent is needed for the stock's own
         # concentration): noise is relative to the other amount - the last digits of a float - never an absolute volume
         # (... and one stored digit of the solute: the stock's own concentration is known no better than that)
-        negligible = 1e-14 + 10 ** -config.internal_precision / source.contents[solute]
-        x, y = (0. if abs(value) <= negligible * (abs(x) + abs(y)) else value for value in (x, y))
+        # Only the solvent portion can be such a zero, and then the whole quantity comes from the source.
+        negligible = 1e-9 + 10 ** -config.internal_precision / source.contents[solute]
+        if abs(y) <= negligible * (abs(x) + abs(y)) and a[1][0] > 0:
+            x, y = quantity_value / a[1][0], 0.
         if x < 0 or y < 0:
             raise ValueError("Solution is impossible to create.")
 
